@@ -132,6 +132,7 @@ type xstate struct {
 }
 
 var X = &xstate{}
+var CheckModel = os.Getenv("GOSYM_CHECKMODEL") != ""
 var HostStack = os.Getenv("GOSYM_HOSTSTACK") != ""
 var qkindStats map[string]int
 
@@ -397,6 +398,9 @@ func (x *xstate) feasible(c *expr) (satResult, map[string]uint64) {
 }
 
 func (x *xstate) assertPC(c *expr) {
+	if CheckModel && eval(c, x.model) == 0 {
+		x.engineErr(fmt.Sprintf("path model violates asserted condition %s at %v (pos %d/%d)", x.Z.ref(c), x.stack(3), x.pos, len(x.prefix)))
+	}
 	x.pc = append(x.pc, c)
 	x.dom.note(c)
 	x.Z.send("(assert " + x.Z.ref(c) + ")")
@@ -701,7 +705,7 @@ func (x *xstate) violation(kind, msg string, m map[string]uint64, stack []string
 	}
 	mm := map[string]uint64{}
 	for _, v := range x.vars {
-		mm[v.name] = m[v.name] & mask(v.w)
+		mm[v.name] = m[v.name] & maskB(v.w)
 	}
 	x.res.Violations = append(x.res.Violations, Violation{Kind: kind, Msg: msg, Model: mm, Stack: stack, Obs: x.evalObs(m), Entry: x.job.Entry, Param: x.job.Params})
 }
@@ -960,7 +964,7 @@ func (x *xstate) runPath(i *interpreter, fn *ssa.Function, it WorkItem) {
 		if j.SampleEvery > 0 && len(x.res.Samples) < j.MaxSamples && (x.st.Paths-1)%j.SampleEvery == 0 && outcome != "unsupported" && outcome != "engine" {
 			mm := map[string]uint64{}
 			for _, v := range x.vars {
-				mm[v.name] = x.model[v.name] & mask(v.w)
+				mm[v.name] = x.model[v.name] & maskB(v.w)
 			}
 			x.res.Samples = append(x.res.Samples, Sample{Model: mm, Obs: x.evalObs(x.model), Outcome: outcome})
 		}
@@ -991,4 +995,11 @@ func sortedKeys(m map[string]int) []string {
 	}
 	sort.Strings(ks)
 	return ks
+}
+
+func maskB(w int) uint64 {
+	if w == 0 {
+		return 1
+	}
+	return mask(w)
 }
